@@ -74,6 +74,19 @@ CHECKS = {
                      "definitions for all (n,d). Complete for the stated space.",
                 note="NV instruction semantics (rot, crot) as in the NetQASM paper; float tolerance 1e-9",
                 ref="3/C07"),
+    "C08": dict(cat="exploration", tech="bounded-exhaustive enumeration of vanilla program skeletons x gate groups x placements x register source x debug; real transpiler output (serialised form) executed on the reference VM with NV semantics against the original with vanilla semantics",
+                text="Straight-line, if (taken / skipped), counted loop, loop exiting to a label just past the end, branch to end, if-in-loop, "
+                     "measure-then-if and mov-with-alloc/free skeletons, filled with every gate group [set Q0 a; (set Q1 b;) g] for "
+                     "g in {h,x,t,rot_y,cnot,cphase} and every placement over ids {0,1,2}, with the qubit register written by set or by "
+                     "load from an array, debug False and True, are transpiled by the real NVSubroutineTranspiler, serialised and "
+                     "deserialised with the NV flavour, and run on the independent reference VM from a basis, a product and an "
+                     "entangled initial state under every measurement script: named registers, arrays, allocation and the full state "
+                     "vector (up to global phase) must equal those of the original under vanilla semantics. Statically, every branch "
+                     "target must be the first instruction of the expansion of its original target (or the appended no-op), non-gate "
+                     "instructions keep their order and operands, and debug=True must give the same wire program as debug=False.",
+                note="programs in which every gate is preceded by the set/load of its registers (what the builder emits); open known findings: "
+                     "two-qubit gate on a register written by load, carbon-carbon gate through an unallocated electron",
+                ref="3/C08"),
     "C09": dict(cat="model_checking", tech="explicit-state BFS over SDK qubit-operation histories, every history replayed on the real SDK-to-controller pipeline with an allocation-checking executor",
                 text="Breadth-first search over histories of qubit creation, gates, cnot, in-place and destructive measurement, free, "
                      "create/recv_keep(1|2), sequential keep with a measuring post routine, sequential and non-sequential EPR contexts "
